@@ -203,7 +203,9 @@ func runReplicaPlan(c *pbt.Case, p ReplicaPlan) {
 		// recorder was enabled before the node started
 	}
 	pr.CloseConns()
-	if err := cl.WaitConverged(20 * time.Second); err != nil {
+	// (every step of the replica's apply copies its whole directory while this waits:
+	// hundreds of copies of a database of up to 400 pages on whatever disk this runs on)
+	if err := cl.WaitConverged(180 * time.Second); err != nil {
 		c.Failf("C05/liveness/no-convergence", "the replica did not reach the primary's position: %v", err)
 	}
 	rec.Point("end")
